@@ -223,7 +223,7 @@ func (g *gen) next() HOp {
 		if r.Chance(20) && len(op.GAud) > 0 {
 			op.GAud = op.GAud[1:]
 		}
-		if r.Chance(12) {
+		if r.Chance(18) {
 			// the integrator grants an audience that was not requested
 			if x := Pick(r, audPool); !strings.Contains(" "+strings.Join(op.GAud, " ")+" ", " "+x+" ") {
 				op.GAud = append(op.GAud, x)
@@ -336,6 +336,13 @@ func (g *gen) next() HOp {
 	case pick(p.WRevoke):
 		kind := Pick(r, []string{"access", "refresh"})
 		i := g.pickTok(kind, nil)
+		usedRT := false
+		if r.Chance(20) {
+			// a refresh token that was already exchanged: must be answered with success and change nothing
+			if j := g.pickTok("refresh", func(t *gTok) bool { return t.used }); j >= 0 {
+				i, usedRT = j, true
+			}
+		}
 		op := HOp{Kind: "revoke", Tok: HTok{Ref: i}}
 		owner := 0
 		if i >= 0 {
@@ -343,6 +350,9 @@ func (g *gen) next() HOp {
 		}
 		op.Auth = g.auth(owner)
 		op.Hint = Pick(r, []string{"access_token", "refresh_token", "other", ""})
+		if usedRT && r.Chance(70) {
+			op.Hint = "refresh_token"
+		}
 		if r.Chance(p.Bad / 3) {
 			op.Tok.Tamper = true
 		}
@@ -558,7 +568,13 @@ func (g *gen) next() HOp {
 		i := r.Intn(len(g.h.Clients))
 		nc := g.orig[i]
 		cur := g.h.Clients[i]
-		switch r.Intn(5) {
+		switch r.Intn(6) {
+		case 5: // drop one registered audience
+			if len(cur.Aud) > 0 {
+				k := r.Intn(len(cur.Aud))
+				nc = cur
+				nc.Aud = append(append([]string{}, cur.Aud[:k]...), cur.Aud[k+1:]...)
+			}
 		case 0:
 			if len(cur.Scopes) > 1 {
 				k := r.Intn(len(cur.Scopes))
